@@ -1073,6 +1073,37 @@ class JavaFE:
                 if pos < 0 or pos + k > len(buf.b):
                     raise JThrow(self.mkexc('java/lang/IndexOutOfBoundsException', 'get'))
                 return self.widen(from_bytes(buf.b[pos:pos + k], le), ty)
+        m = re.match(r'readUnsigned(Byte|Short|Int)(LE)?$', mn)
+        if m:
+            k = {'Byte': 1, 'Short': 2, 'Int': 4}[m.group(1)]
+            if buf.r + k > len(buf.b):
+                raise JThrow(self.mkexc('java/lang/IndexOutOfBoundsException', 'read past end'))
+            v = from_bytes(buf.b[buf.r:buf.r + k], bool(m.group(2)))
+            buf.r += k
+            if k == 4:
+                return JLong(simp(z3.ZeroExt(32, v)) if is_sym(v) else v)
+            c = conc(v)
+            return c if c is not None else simp(z3.ZeroExt(32 - 8 * k, v))
+        if mn == 'writeBoolean':
+            buf.b.extend(bytes_of(self.raw(a[0], 1), 1, False))
+            return buf
+        if mn == 'writeZero':
+            buf.b.extend([z3.BitVecVal(0, 8)] * self.cint(a[0]))
+            return buf
+        if mn == 'skipBytes':
+            n = self.cint(a[0])
+            if n < 0 or buf.r + n > len(buf.b):
+                raise JThrow(self.mkexc('java/lang/IndexOutOfBoundsException', 'skipBytes(%d)' % n))
+            buf.r += n
+            return buf
+        if mn == 'isReadable':
+            return 1 if (len(buf.b) - buf.r >= (self.cint(a[0]) if a else 1)) else 0
+        if mn == 'readerIndex' and a:
+            i = self.cint(a[0])
+            if i < 0 or i > len(buf.b):
+                raise JThrow(self.mkexc('java/lang/IndexOutOfBoundsException', 'readerIndex(%d)' % i))
+            buf.r = i
+            return buf
         if mn == 'writerIndex' and not a:
             return len(buf.b)
         if mn == 'readerIndex' and not a:
@@ -1086,6 +1117,14 @@ class JavaFE:
             if isinstance(arr, JArr):
                 buf.b.extend([x if is_sym(x) and x.size() == 8 else bv(x, 8) for x in arr.items])
                 return buf
+        if mn == 'writeCharSequence':
+            sq = a[0]
+            if sq is None:
+                raise JThrow(self.mkexc('java/lang/NullPointerException', 'writeCharSequence(null)'))
+            if isinstance(sq, JStr):
+                # the string is carried as its UTF-8 bytes; the call returns the number of bytes written
+                buf.b.extend([x if is_sym(x) and x.size() == 8 else bv(x, 8) for x in sq.bs])
+                return len(sq.bs)
         if mn == 'readBytes' and isinstance(a[0], JArr):
             n = len(a[0].items)
             if buf.r + n > len(buf.b):
